@@ -75,6 +75,28 @@ pub fn edits1(s: &str, alphabet: &[&str], f: &mut dyn FnMut(&str)) {
     }
 }
 
+/// all double-edit neighbours of `s`: every single-edit neighbour of every single-edit neighbour,
+/// in the fixed order of `edits1` (duplicates and the string itself are not filtered out; the count
+/// is therefore the number of edit *pairs*, the set is the full ball of radius 2 minus nothing)
+pub fn edits2(s: &str, alphabet: &[&str], f: &mut dyn FnMut(&str)) {
+    let mut firsts: Vec<String> = Vec::new();
+    edits1(s, alphabet, &mut |t| firsts.push(t.to_string()));
+    for t in &firsts {
+        edits1(t, alphabet, f);
+    }
+}
+
+/// the `idx`-th slice of `n` of the double-edit neighbourhood (split on the first edit)
+pub fn edits2_slice(s: &str, alphabet: &[&str], idx: usize, n: usize, f: &mut dyn FnMut(&str)) {
+    let mut firsts: Vec<String> = Vec::new();
+    edits1(s, alphabet, &mut |t| firsts.push(t.to_string()));
+    for (i, t) in firsts.iter().enumerate() {
+        if i % n == idx {
+            edits1(t, alphabet, f);
+        }
+    }
+}
+
 pub const P15: [&str; 17] = [
     "r3k2r/pppppppp/8/8/8/8/PPPPPPPP/R3K2R w KQkq - 0 1",
     "7k/8/8/8/8/8/N1N5/K7 w - - 0 1",
